@@ -32,6 +32,10 @@ ASSUMPTIONS = [
     "exact prediction is made for the mean estimator without filters (where no filter/estimator abort can occur); with filters "
     "or stddev the exit code is checked for consistency with the delivered results and for being a documented code",
     "vectorized differential evolution may exceed max_functions by less than one population batch",
+    "an evaluation that a realization filter or the stddev estimator ends with TOO_FEW_REALIZATIONS produces no results at all "
+    "(C05: 'ends with TOO_FEW_REALIZATIONS instead of producing a value'): the delivery clause is applied to evaluations that "
+    "produced results (too few successes for the thresholds); such an aborted evaluation may only be the last one of the run and "
+    "the exit code must be TOO_FEW_REALIZATIONS or MAX_FUNCTIONS_REACHED",
 ]
 
 METHODS = {
